@@ -6,7 +6,7 @@ from props import _family as F
 PROOF_MODULES = ['Jwt.Props.C09']
 PROP_MODULES = ['Jwt.Props.C09']
 PROP_FILES = ['Jwt/Props/C09.lean']
-GENERATED_FACT_THEOREMS = 1
+GENERATED_FACT_THEOREMS = 2
 CHECKER_CMD = "cd lean && lake build Jwt.Props.C09 && lake env lean <generated #print axioms file>"
 LEVEL_TEXT = ('Lean theorems for every bits:Nat: the gates pass exactly per the documented floor table; every primitive call made by verification satisfies it (trace); acceptance implies it; the gate is live at/above the floor; the same for signing (generate). Tied to the code by every oct length 1-160 x HS256/384/512 and every generated RSA/EC/OKP key x every public-key algorithm with oracle-signed tokens.')
 ASSUMPTIONS = F.COMMON_ASSUME + []
@@ -16,7 +16,7 @@ replay = F.replay
 
 def run(ctx, model_ok, deep=False):
     extra = {"rsa1024": K.gen_key("rsa", 1024, ctx.scratch), "rsa2047": K.gen_key("rsa", 2047, ctx.scratch),
-             "rsa2041": K.gen_key("rsa", 2041, ctx.scratch), "p384": K.gen_key("ec", "P-384", ctx.scratch),
+             "rsa2041": K.gen_key("rsa", 2041, ctx.scratch), "rsa2050": K.gen_key("rsa", 2050, ctx.scratch), "p384": K.gen_key("ec", "P-384", ctx.scratch),
              "p521": K.gen_key("ec", "P-521", ctx.scratch), "k256": K.gen_key("ec", "secp256k1", ctx.scratch),
              "ed448": K.gen_key("okp", "ED448", ctx.scratch)}
     if ctx.tier == "thorough" or deep:
